@@ -14,8 +14,9 @@ pub fn stub_format(_args: core::fmt::Arguments<'_>) -> String {
 #[kani::stub(alloc::fmt::format, stub_format)]
 fn u01_4_builder_file_key_formula() {
     let b = ArchiveBuilder::new();
+    // published format: the base key is the hash of the PLAIN name (after the last separator)
     let name = "a\\b.c";
-    let base = hash_string(name, hash_type::FILE_KEY);
+    let base = hash_string("b.c", hash_type::FILE_KEY);
     let pos: u64 = kani::any();
     let size: u32 = kani::any();
     let flags: u32 = kani::any();
@@ -64,8 +65,9 @@ fn u01_2_bits_needed() {
 #[kani::stub(alloc::fmt::format, stub_format)]
 fn u01_4_write_file_key_uses_file_size() {
     let b = ArchiveBuilder::new();
+    // published format: the base key is the hash of the PLAIN name (after the last separator)
     let name = "a\\b.c";
-    let base = hash_string(name, hash_type::FILE_KEY);
+    let base = hash_string("b.c", hash_type::FILE_KEY);
     let pos: u64 = kani::any();
     let flags: u32 = kani::any();
     let data = [0u8; 6];
